@@ -44,6 +44,28 @@ func (vc *VC) lookupSpec(key string) *FuncSpec {
 	return nil
 }
 
+// callerView: a function whose contract is declared `effects_private` touches only state that is
+// private to its own package (unexported package-level tables and ghost state declared private to
+// it). Callers in other packages can neither observe nor depend on any of it, so they see the call
+// as effect-free — as they would a trusted library call — instead of carrying its frame and its
+// quantified post-conditions through every proof.
+var stubSpecs = map[string]*FuncSpec{}
+
+func (vc *VC) callerView(spec *FuncSpec) *FuncSpec {
+	if spec == nil || !spec.EffectsPrivate || vc.top == nil || vc.top.Pkg == nil {
+		return spec
+	}
+	if shortPkg(vc.top.Pkg.Pkg.Path()) == spec.Pkg {
+		return spec
+	}
+	if st, ok := stubSpecs[spec.Key]; ok {
+		return st
+	}
+	st := &FuncSpec{Key: spec.Key, Pkg: spec.Pkg, Trusted: true, Loops: map[int]*LoopSpec{}, File: spec.File, Line: spec.Line, Params: spec.Params, Results: spec.Results}
+	stubSpecs[spec.Key] = st
+	return st
+}
+
 func (fr *Frame) callModifies(ins ssa.CallInstruction) ([]string, bool) {
 	vc := fr.vc
 	cc := ins.Common()
@@ -69,7 +91,7 @@ func (fr *Frame) callModifies(ins ssa.CallInstruction) ([]string, bool) {
 	if native, ok := nativeCalls[key]; ok {
 		return native.modifies(fr, cc), true
 	}
-	spec := vc.lookupSpec(key)
+	spec := vc.callerView(vc.lookupSpec(key))
 	if spec == nil {
 		if static != nil && static.Parent() != nil {
 			// closure: conservatively everything
@@ -396,7 +418,7 @@ func (fr *Frame) doCall(ins ssa.Instruction, cc *ssa.CallCommon, st *State, pos 
 	if native, ok := nativeCalls[key]; ok {
 		return native.exec(fr, cc, st, pos)
 	}
-	spec := vc.lookupSpec(key)
+	spec := vc.callerView(vc.lookupSpec(key))
 	if spec != nil {
 		return fr.applyContract(spec, cc, st, pos)
 	}
@@ -549,6 +571,12 @@ func (fr *Frame) applyContract(spec *FuncSpec, cc *ssa.CallCommon, st *State, po
 	for _, en := range spec.Ensures {
 		g, err := mk(st).evalBool(en.E)
 		if err != nil {
+			if (spec.Arith == "bv") != vc.bv {
+				// the callee is verified in the other arithmetic (bit-vectors vs integers): a post-condition
+				// that cannot be restated here is simply not available to this caller (weaker, still sound)
+				vc.note("post-condition of %s not available in this arithmetic mode: %s", spec.Key, en.Text)
+				continue
+			}
 			vc.unsupportedf("ensures of %s: %v", spec.Key, err)
 			continue
 		}
